@@ -761,7 +761,7 @@ func (fr *Frame) localByName(st *State, name string) *Val {
 	if pv == nil {
 		return nil
 	}
-	if _, isStruct := derefType(best.Type()).Underlying().(*types.Struct); isStruct && (pv.Addr == nil || pv.Addr.Kind != ACell) {
+	if _, isStruct := derefType(best.Type()).Underlying().(*types.Struct); isStruct && !isOpaque(derefType(best.Type())) && (pv.Addr == nil || pv.Addr.Kind != ACell) {
 		return pv // addressable struct local: its address carries the identity (ghost fields) and gives field access
 	}
 	return fr.c.load(st, pv)
